@@ -14,13 +14,9 @@ operand order and row-major layout as in the code, for every accepted evaluation
 theorem rhs_F_block (phase fabric : Int) (n : ℕ) (mp : MParams) (env : RhsEnv) (y out : List ℝ)
     (h : evalRhs phase fabric n mp env y = .ok out) :
     out.take 9 = mat3ToList (mmul env.L (mat3OfList (y.take 9))) := by
-  obtain ⟨phi, _, h | h⟩ := evalRhs_ok phase fabric n mp env y out h
-  · obtain ⟨_, rfl⟩ := h
-    rw [List.take_append_of_le_length (by simp)]
-    exact List.take_of_length_le (by simp)
-  · obtain ⟨_, ad, fd, _, rfl⟩ := h
-    rw [List.append_assoc, List.take_append_of_le_length (by simp)]
-    exact List.take_of_length_le (by simp)
+  obtain ⟨phi, _, ad, fd, _, rfl⟩ := evalRhs_ok phase fabric n mp env y out h
+  rw [List.append_assoc, List.take_append_of_le_length (by simp)]
+  exact List.take_of_length_le (by simp)
 
 /-- **the F block does not depend on the mineral**: phase, fabric, regime, grain count, texture,
 recrystallisation parameters, phase assemblage — two accepted evaluations that see the same
